@@ -25,3 +25,14 @@ Definition C14_case (c : view * list N * list N * list (nat * res (list N))) : N
 
 Definition C14_model (c : view * list N * list N * list (nat * res (list N))) :=
   let '(v, _, _, _) := c in csv_render v.
+
+(* compact form: the distinct outcomes once, and for every render (in order)
+   its slot and the index of its outcome *)
+Definition expand14 (ds : list (res (list N))) (ix : list (nat * nat)) : list (nat * res (list N)) :=
+  map (fun '(s, i) => (s, nth i ds Panic)) ix.
+
+Definition C14_case2 (c : view * list N * list N * list (res (list N)) * list (nat * nat)) : N :=
+  let '(v, before, after, ds, ix) := c in C14_case (v, before, after, expand14 ds ix).
+
+Definition C14_model2 (c : view * list N * list N * list (res (list N)) * list (nat * nat)) :=
+  let '(v, _, _, _, _) := c in csv_render v.
